@@ -100,3 +100,10 @@ ASSUME.update({
          "the stat helper's workers are modelled sequentially with an oracle for 'the loop already sees the cancellation'; real goroutine timing is what the harness' one-slot gate makes deterministic",
          "bounded completion is observed with a 3 s watchdog, not proved"],
 })
+ASSUME.update({
+ "C14": ["level = exploration judged by a proved checker: the theorems are about the judge (sound, complete, witness checker, never rejects a linearizable store); which schedules occur is sampled, not proved",
+         "an enumeration is read as a simultaneous read of every ref: necessary for linearizability of the whole store, and per-ref linearizability is equivalent to it for histories without enumerations (Herlihy-Wing locality, cited not proved)",
+         "data-race freedom is the Go race detector's dynamic verdict on the explored runs (harness built with -race)",
+         "real-time order is taken from one atomic counter read before and after each call",
+         "in the index scenario each permanode's claims are delivered by one feeder with ascending claim dates (the attribute's value is decided by claim dates, not by arrival order)"],
+})
